@@ -163,4 +163,16 @@ def _http_seq(rep):
     return any(c == rep["clause"] for c, _ in res["failed_pairs"].get(0, []))
 
 
-REPLAYERS = {"http_seq": _http_seq, "host_case": _host_case, "lifecycle": _lifecycle, "stdio_out": _stdio_out, "framing": _framing, "gate_script": _gate_script, "version_runs": _version_runs, "handshake": _handshake, "handshake_server": _handshake_server, "dispatch_case": _dispatch_case, "session_ops": _session_ops, "errorclass_case": _errorclass_case, "errorclass_sets": _errorclass_sets}
+def _sse_script(rep):
+    from harness.props import sse
+    from harness.drivers import sse_drv
+    t = sse_drv.run_scripts([(rep["path"], rep["seed"])])
+    print(json.dumps(t[0]))
+    consts = dict(sse.TREE)
+    consts.update({"Timeout": sse_drv.TIMEOUT_UNITS, "MaxTime": 100, "MaxSrv": 100})
+    res = validate.validate("SseTransportTrace", t, consts, work=os.path.join(tlc.WORK, "replay_sse"), jobs=1)
+    print("failed:", res["failed"])
+    return rep["clause"] in res["failed"].get(0, [])
+
+
+REPLAYERS = {"sse_script": _sse_script, "http_seq": _http_seq, "host_case": _host_case, "lifecycle": _lifecycle, "stdio_out": _stdio_out, "framing": _framing, "gate_script": _gate_script, "version_runs": _version_runs, "handshake": _handshake, "handshake_server": _handshake_server, "dispatch_case": _dispatch_case, "session_ops": _session_ops, "errorclass_case": _errorclass_case, "errorclass_sets": _errorclass_sets}
